@@ -230,6 +230,9 @@ func (d dec) lit(r *rand.Rand, fancy bool) string {
 				if strings.HasSuffix(s, "0") && len(s) > 1 && s != "-0" {
 					return s[:len(s)-1] + "e1" // 20 = 2e1
 				}
+				if s == "0" {
+					return "0e1"
+				}
 				return s + "0e-1" // 7 = 70e-1
 			case 4:
 				if s == "0" {
@@ -1121,6 +1124,10 @@ func newScenario(rng *rand.Rand, d draft) *scenario {
 		} else {
 			g.use("no-$schema")
 		}
+	}
+	if g.coin(25) {
+		g.use("$id")
+		ms = append(ms, M("$id", Str(freshID("scenario"))))
 	}
 	if g.coin(50) {
 		g.use("$metadata")
